@@ -1,6 +1,6 @@
 """C08 configuration for ./check (see checks/propcfg.py for the keys)."""
 CFG = {
-    "modules": ["VaxisModel.Props.C08", "VaxisModel.Props.C08Fine", "VaxisModel.Props.C08Pools", "VaxisModel.Props.C08Live", "VaxisModel.Props.C08Spec", "VaxisModel.Props.C08FineChan", "VaxisModel.Props.C08Order", "VaxisModel.Props.C08Drive", "VaxisModel.Witness.F29"],
+    "modules": ["VaxisModel.Props.C08", "VaxisModel.Props.C08Fine", "VaxisModel.Props.C08Pools", "VaxisModel.Props.C08Live", "VaxisModel.Props.C08Spec", "VaxisModel.Props.C08FineChan", "VaxisModel.Props.C08Order", "VaxisModel.Props.C08Drive", "VaxisModel.Props.C08Payload", "VaxisModel.Witness.F29"],
     "extractors": ["C02"],
     "drivers": ["C08"],
     "trivial_prefix": ("Z |",),
@@ -36,6 +36,8 @@ CFG = {
                   "slice reads the automaton's inter, and every hand-over delivers exactly the intermediates the automaton put into the sequence (table-wide check). "
                   "Statement order: run (both select arms, tail) and the timer callback are extracted as skeletons; the model's program counters stand in front of these statements in source order. "
                   "Parameter pools: negative witnesses (storage kept by the parser at emit / double Finish => a held CSI is overwritten). "
+                  "Payload storage: the regenerated bodies of oscEnd/unhook/apcUnhook replace the accumulator by a fresh slice after the emit, never truncate it in place (delivered_payloads_not_recycled). "
+                  "The callback as it was before F29 reaches the three failures at statement grain (fine_pre_F29_callback_fails). "
                   "Composition with C02 (Props/C08Spec): for every schedule the delivered items are exactly what the reference machine of Spec/VT500.lean prescribes for the same labels - runes through the VT500 machine "
                   "(F102 on; F102c is repaired), the Escape key = Spec escKey at every up-to-date timer firing and nowhere else, the open control string at end of input, one EOF; for segment scripts this is Spec.runWithEscKeysD, the driver's oracle. "
                   "Real time is abstracted to the order of timer and read events.",
